@@ -116,11 +116,10 @@ func hasDrainDefer(fn *ssa.Function) bool {
 		if !ok {
 			return
 		}
-		mc, ok := d.Call.Value.(*ssa.MakeClosure)
-		if !ok {
+		cl := deferredBody(d)
+		if cl == nil {
 			return
 		}
-		cl := mc.Fn.(*ssa.Function)
 		eachInstr(cl, func(in2 ssa.Instruction) {
 			if ci, ok := in2.(ssa.CallInstruction); ok {
 				cc := ci.Common()
@@ -470,7 +469,7 @@ func ruleM2(c *Ctx) {
 	for _, s := range sites {
 		if s.delta < 0 {
 			top := s.fn
-			if top.Name() != "Done" && top.Parent() == nil {
+			if top.Name() != "Done" && top.Parent() == nil && !releaseHelper(c.P, top, 0) {
 				c.viol(fmt.Sprintf("%s: placement of itercount-1", fnName(s.fn)), c.P.Pos(s.st.Pos()), "decrement outside a Done method or deferred closure")
 			}
 			if top.Parent() != nil {
@@ -502,38 +501,48 @@ func ruleP2(c *Ctx) {
 		c.anchorFail("starlark.Call or (*Function).CallInternal not found")
 		return
 	}
-	// (a) Call: push on thread.stack, then a defer whose closure truncates thread.stack, before the invoke of CallInternal
-	var push *ssa.Store
+	// (a) Call: push on thread.stack, then a defer whose body truncates thread.stack, before the invoke of CallInternal.
+	// The push and the pop may each live in a private helper (pushFrame/popFrame).
+	isPush := func(in ssa.Instruction) bool {
+		x, ok := in.(*ssa.Store)
+		if !ok {
+			return false
+		}
+		tr := traceAddr(x.Addr)
+		if _, ok := x.Addr.(*ssa.FieldAddr); ok && len(tr.fields) > 0 && tr.fields[0].Name() == "stack" && qualType(tr.owners[0]) == "starlark.Thread" {
+			if cl, ok := x.Val.(*ssa.Call); ok {
+				if b, ok := cl.Call.Value.(*ssa.Builtin); ok && b.Name() == "append" {
+					return true
+				}
+			}
+		}
+		return false
+	}
+	isPop := func(in2 ssa.Instruction) bool {
+		st, ok := in2.(*ssa.Store)
+		if !ok {
+			return false
+		}
+		tr := traceAddr(st.Addr)
+		if _, isFA := st.Addr.(*ssa.FieldAddr); isFA && len(tr.fields) > 0 && tr.fields[0].Name() == "stack" {
+			if sl, ok := st.Val.(*ssa.Slice); ok && sl.High != nil {
+				if bo, ok := sl.High.(*ssa.BinOp); ok && bo.Op == token.SUB {
+					if k, isK := constInt(bo.Y); isK && k == 1 {
+						return true
+					}
+				}
+			}
+		}
+		return false
+	}
+	push := findInCallees(call, 1, isPush)
 	var popDefer *ssa.Defer
 	var invoke ssa.Instruction
 	eachInstr(call, func(in ssa.Instruction) {
 		switch x := in.(type) {
-		case *ssa.Store:
-			tr := traceAddr(x.Addr)
-			if _, ok := x.Addr.(*ssa.FieldAddr); ok && len(tr.fields) > 0 && tr.fields[0].Name() == "stack" && qualType(tr.owners[0]) == "starlark.Thread" && push == nil {
-				if cl, ok := x.Val.(*ssa.Call); ok {
-					if b, ok := cl.Call.Value.(*ssa.Builtin); ok && b.Name() == "append" {
-						push = x
-					}
-				}
-			}
 		case *ssa.Defer:
-			if mc, ok := x.Call.Value.(*ssa.MakeClosure); ok {
-				cl := mc.Fn.(*ssa.Function)
-				eachInstr(cl, func(in2 ssa.Instruction) {
-					if st, ok := in2.(*ssa.Store); ok {
-						tr := traceAddr(st.Addr)
-						if _, isFA := st.Addr.(*ssa.FieldAddr); isFA && len(tr.fields) > 0 && tr.fields[0].Name() == "stack" {
-							if sl, ok := st.Val.(*ssa.Slice); ok && sl.High != nil {
-								if bo, ok := sl.High.(*ssa.BinOp); ok && bo.Op == token.SUB {
-									if k, isK := constInt(bo.Y); isK && k == 1 {
-										popDefer = x
-									}
-								}
-							}
-						}
-					}
-				})
+			if body := deferredBody(x); body != nil && findInCallees(body, 1, isPop) != nil {
+				popDefer = x
 			}
 		case *ssa.Call:
 			if x.Call.IsInvoke() && x.Call.Method.Name() == "CallInternal" {
@@ -564,13 +573,13 @@ func ruleP2(c *Ctx) {
 		if !ok {
 			return
 		}
-		if mc, ok := d.Call.Value.(*ssa.MakeClosure); ok {
-			cl := mc.Fn.(*ssa.Function)
-			eachInstr(cl, func(in2 ssa.Instruction) {
-				if cc, ok := in2.(ssa.CallInstruction); ok && cc.Common().IsInvoke() && cc.Common().Method.Name() == "Done" {
-					drain = d
-				}
-			})
+		if cl := deferredBody(d); cl != nil {
+			if findInCallees(cl, 1, func(in2 ssa.Instruction) bool {
+				cc, ok := in2.(ssa.CallInstruction)
+				return ok && cc.Common().IsInvoke() && cc.Common().Method.Name() == "Done"
+			}) != nil {
+				drain = d
+			}
 		}
 	})
 	fetch := findFetch(ci)
@@ -635,4 +644,47 @@ func findFetch(fn *ssa.Function) ssa.Instruction {
 		}
 	})
 	return out
+}
+
+// releaseHelper: fn is a private helper whose every call site is inside a Done
+// method, a deferred call/closure, or another such helper.
+func releaseHelper(p *Prog, fn *ssa.Function, depth int) bool {
+	if depth > 3 || fn.Object() == nil || fn.Object().Exported() {
+		return false
+	}
+	n := 0
+	ok := true
+	for _, g := range p.Funcs {
+		eachInstr(g, func(in ssa.Instruction) {
+			ci, isCall := in.(ssa.CallInstruction)
+			if !isCall || ci.Common().StaticCallee() != fn {
+				return
+			}
+			n++
+			if _, isDefer := in.(*ssa.Defer); isDefer {
+				return
+			}
+			top := g
+			if top.Name() == "Done" {
+				return
+			}
+			if top.Parent() != nil {
+				// inside a closure: must be a deferred closure
+				for _, mc := range closureSites(top) {
+					if refs := mc.Referrers(); refs != nil {
+						for _, r := range *refs {
+							if _, isD := r.(*ssa.Defer); isD {
+								return
+							}
+						}
+					}
+				}
+			}
+			if releaseHelper(p, outermost(g), depth+1) {
+				return
+			}
+			ok = false
+		})
+	}
+	return ok && n > 0
 }
